@@ -16,3 +16,6 @@ import Brax.Lemmas.Scan
 import Brax.Lemmas.KinPos
 import Brax.Lemmas.KinVel
 import Brax.Props.C01
+import Brax.Lemmas.ScanSpec
+import Brax.Lemmas.KinEquiv
+import Brax.Props.C19
